@@ -1,7 +1,324 @@
-//! Implementation-side evaluator for the `fq` correspondence checks (see props/).
+//! Implementation-side evaluator for the `fq` correspondence checks (props/C08.py, props/C14.py).
+//!
+//! op "run": drives the REAL `future_queue_grouped` stream of the `future-queue` crate nextest
+//! links, single-threaded, with a hand-rolled poll loop (no runtime: nothing runs between two
+//! polls that the script did not ask for). Each item's future waits on a oneshot channel the
+//! harness fires in a scripted order. Logged, in order:
+//!   ["p"]                      poll_next is called
+//!   ["s", id, gslot, grslot]   the item's closure was called with its FutureQueueContext
+//!                              (grslot = -1 when the context has no group slot)
+//!   ["c", id]                  the item's future resolved (inside the poll that pops it, or at
+//!                              the end of the previous poll when the stream peeked at it)
+//!   ["o", id]                  poll_next returned this item's output
+//!   ["w", cur]                 current_global_weight() after the stream went Pending
+//!   ["e"]                      poll_next returned None
+//!   ["x", msg]                 poll_next panicked (debug_assert / unknown group)
+//! ops "binid_cmp", "prio_cmp", "threads_required", "prio_sort": nextest's own wiring through its
+//! public API (RustBinaryId's Ord, TestPriority's Ord, ThreadsRequired::compute).
+#[path = "fq_runner.rs"]
+mod fq_runner;
+
+use future_queue::{FutureQueueContext, StreamExt as _};
+use futures::{channel::oneshot, stream, Stream, StreamExt as _};
 use serde_json::{json, Value};
+use std::{
+    cell::RefCell,
+    panic::{catch_unwind, AssertUnwindSafe},
+    pin::Pin,
+    rc::Rc,
+    sync::{
+        atomic::{AtomicBool, Ordering},
+        Arc,
+    },
+    task::{Context, Poll, Wake, Waker},
+};
+
+struct Flag(AtomicBool);
+impl Wake for Flag {
+    fn wake(self: Arc<Self>) {
+        self.0.store(true, Ordering::SeqCst);
+    }
+}
+
+struct Shared {
+    log: Vec<Value>,
+    /// started, not yet returned, in start order
+    running: Vec<u64>,
+}
+
+/// poll until the stream is Pending without having woken itself
+fn drive<S: Stream<Item = u64>>(
+    q: &mut Pin<Box<S>>,
+    shared: &Rc<RefCell<Shared>>,
+    flag: &Arc<Flag>,
+    waker: &Waker,
+    ended: &mut bool,
+    panicked: &mut Option<String>,
+    cur: &dyn Fn(&S) -> usize,
+) {
+    let mut budget = 10_000;
+    while !*ended && panicked.is_none() && budget > 0 {
+        budget -= 1;
+        shared.borrow_mut().log.push(json!(["p"]));
+        flag.0.store(false, Ordering::SeqCst);
+        let mut cx = Context::from_waker(waker);
+        let r = catch_unwind(AssertUnwindSafe(|| q.as_mut().poll_next(&mut cx)));
+        match r {
+            Ok(Poll::Ready(Some(id))) => {
+                let mut s = shared.borrow_mut();
+                s.log.push(json!(["o", id]));
+                s.running.retain(|x| *x != id);
+            }
+            Ok(Poll::Ready(None)) => {
+                shared.borrow_mut().log.push(json!(["e"]));
+                *ended = true;
+            }
+            Ok(Poll::Pending) => {
+                if !flag.0.load(Ordering::SeqCst) {
+                    break;
+                }
+            }
+            Err(e) => {
+                let msg = e
+                    .downcast_ref::<String>()
+                    .cloned()
+                    .or_else(|| e.downcast_ref::<&str>().map(|s| s.to_string()))
+                    .unwrap_or_else(|| "panic".to_string());
+                shared.borrow_mut().log.push(json!(["x", msg.clone()]));
+                *panicked = Some(msg);
+            }
+        }
+    }
+    if !*ended && panicked.is_none() {
+        let c = cur(&**q);
+        shared.borrow_mut().log.push(json!(["w", c]));
+    }
+}
+
+fn run_queue(case: &Value) -> Value {
+    let gmax = case["gmax"].as_u64().unwrap() as usize;
+    let groups: Vec<(u64, usize)> = case["groups"]
+        .as_array()
+        .unwrap()
+        .iter()
+        .map(|g| (g[0].as_u64().unwrap(), g[1].as_u64().unwrap() as usize))
+        .collect();
+    // item = [weight, group or null, immediately-ready flag]
+    let items: Vec<(usize, Option<u64>, bool)> = case["items"]
+        .as_array()
+        .unwrap()
+        .iter()
+        .map(|it| {
+            (
+                it[0].as_u64().unwrap() as usize,
+                it[1].as_u64(),
+                it[2].as_u64().unwrap_or(0) != 0,
+            )
+        })
+        .collect();
+    let script: Vec<Vec<(u64, u64)>> = case["script"]
+        .as_array()
+        .map(|a| {
+            a.iter()
+                .map(|b| {
+                    b.as_array()
+                        .unwrap()
+                        .iter()
+                        .map(|s| (s[0].as_u64().unwrap(), s[1].as_u64().unwrap()))
+                        .collect()
+                })
+                .collect()
+        })
+        .unwrap_or_default();
+
+    let shared = Rc::new(RefCell::new(Shared {
+        log: Vec::new(),
+        running: Vec::new(),
+    }));
+    let mut senders: Vec<Option<oneshot::Sender<()>>> = Vec::new();
+    let mut source = Vec::new();
+    for (i, (w, g, imm)) in items.iter().enumerate() {
+        let (tx, rx) = oneshot::channel::<()>();
+        if *imm {
+            let _ = tx.send(());
+            senders.push(None);
+        } else {
+            senders.push(Some(tx));
+        }
+        source.push((i as u64, *w, *g, rx));
+    }
+    let sh2 = shared.clone();
+    let src = stream::iter(source).map(move |(id, w, g, rx)| {
+        let sh = sh2.clone();
+        let f = move |cx: FutureQueueContext| {
+            {
+                let mut s = sh.borrow_mut();
+                s.log.push(json!([
+                    "s",
+                    id,
+                    cx.global_slot(),
+                    cx.group_slot().map(|x| x as i64).unwrap_or(-1)
+                ]));
+                s.running.push(id);
+            }
+            let sh = sh.clone();
+            async move {
+                let _ = rx.await;
+                // the "test" ends here, inside the poll that pops it
+                sh.borrow_mut().log.push(json!(["c", id]));
+                id
+            }
+        };
+        (w, g, f)
+    });
+    let mut q = Box::pin(src.future_queue_grouped(gmax, groups));
+
+    let flag = Arc::new(Flag(AtomicBool::new(false)));
+    let waker = Waker::from(flag.clone());
+    let mut ended = false;
+    let mut panicked: Option<String> = None;
+
+    drive(&mut q, &shared, &flag, &waker, &mut ended, &mut panicked, &|s| s.current_global_weight());
+
+    let fire = |sel: (u64, u64), senders: &mut Vec<Option<oneshot::Sender<()>>>| -> bool {
+        let cand: Vec<u64> = shared
+            .borrow()
+            .running
+            .iter()
+            .copied()
+            .filter(|id| senders[*id as usize].is_some())
+            .collect();
+        if cand.is_empty() {
+            return false;
+        }
+        let pick = match sel.0 {
+            1 => *cand.last().unwrap(),
+            2 => cand
+                .iter()
+                .copied()
+                .find(|id| items[*id as usize].1 == Some(sel.1))
+                .unwrap_or(cand[0]),
+            _ => cand[(sel.1 as usize) % cand.len()],
+        };
+        let tx = senders[pick as usize].take().unwrap();
+        let _ = tx.send(());
+        true
+    };
+
+    for batch in &script {
+        if ended || panicked.is_some() {
+            break;
+        }
+        let mut any = false;
+        for sel in batch {
+            any |= fire(*sel, &mut senders);
+        }
+        if any {
+            drive(&mut q, &shared, &flag, &waker, &mut ended, &mut panicked, &|s| s.current_global_weight());
+        }
+    }
+    // let every started future complete (start order) so that each run is a complete run
+    let mut guard = 0;
+    while !ended && panicked.is_none() && guard < 10_000 {
+        guard += 1;
+        if !fire((0, 0), &mut senders) {
+            break;
+        }
+        drive(&mut q, &shared, &flag, &waker, &mut ended, &mut panicked, &|s| s.current_global_weight());
+    }
+    let outcome = if let Some(m) = &panicked {
+        format!("panic: {m}")
+    } else if ended {
+        "end".to_string()
+    } else {
+        "stuck".to_string()
+    };
+    let log = std::mem::take(&mut shared.borrow_mut().log);
+    json!({ "log": log, "outcome": outcome, "max": q.max_global_weight() })
+}
+
+fn ord_code(o: std::cmp::Ordering) -> i64 {
+    match o {
+        std::cmp::Ordering::Less => -1,
+        std::cmp::Ordering::Equal => 0,
+        std::cmp::Ordering::Greater => 1,
+    }
+}
 
 pub fn run(case: &Value) -> Value {
-    let _ = case;
-    json!({ "error": "not implemented" })
+    match case["op"].as_str().unwrap_or("") {
+        "run" => run_queue(case),
+        // RustBinaryId's Ord on all pairs of the given ids
+        "binid_cmp" => {
+            let ids: Vec<nextest_metadata::RustBinaryId> = crate::common::strs(&case["ids"])
+                .iter()
+                .map(|s| nextest_metadata::RustBinaryId::new(s))
+                .collect();
+            let m: Vec<Vec<i64>> = ids
+                .iter()
+                .map(|a| ids.iter().map(|b| ord_code(a.cmp(b))).collect())
+                .collect();
+            json!(m)
+        }
+        // TestPriority: new (range check) and Ord on all pairs
+        "prio_cmp" => {
+            let ps: Vec<i64> = case["prios"]
+                .as_array()
+                .unwrap()
+                .iter()
+                .map(|p| p.as_i64().unwrap())
+                .collect();
+            let vals: Vec<Option<nextest_runner::config::TestPriority>> = ps
+                .iter()
+                .map(|p| nextest_runner::config::TestPriority::new(*p as i8).ok())
+                .collect();
+            let valid: Vec<u64> = vals.iter().map(|v| v.is_some() as u64).collect();
+            let m: Vec<Vec<i64>> = vals
+                .iter()
+                .map(|a| {
+                    vals.iter()
+                        .map(|b| match (a, b) {
+                            (Some(a), Some(b)) => ord_code(a.cmp(b)),
+                            _ => 9,
+                        })
+                        .collect()
+                })
+                .collect();
+            json!({ "valid": valid, "cmp": m })
+        }
+        // ThreadsRequired::compute(test_threads); kind: "count" n | "num-test-threads"
+        "threads_required" => {
+            use nextest_runner::config::ThreadsRequired;
+            let tt = case["test_threads"].as_u64().unwrap() as usize;
+            let tr = match case["kind"].as_str().unwrap() {
+                "count" => ThreadsRequired::Count(case["n"].as_u64().unwrap() as usize),
+                "num-test-threads" => ThreadsRequired::NumTestThreads,
+                _ => ThreadsRequired::NumCpus,
+            };
+            json!(tr.compute(tt))
+        }
+        // what TestPriorityQueue::new does with public pieces only: BTreeMap<RustBinaryId, _> x
+        // BTreeMap<String, _> iteration order, then Vec::sort_by_key (stable) on TestPriority.
+        "prio_sort" => {
+            use nextest_metadata::RustBinaryId;
+            use nextest_runner::config::TestPriority;
+            use std::collections::BTreeMap;
+            let mut suites: BTreeMap<RustBinaryId, BTreeMap<String, (i64, u64)>> = BTreeMap::new();
+            for (k, t) in case["tests"].as_array().unwrap().iter().enumerate() {
+                suites
+                    .entry(RustBinaryId::new(t[0].as_str().unwrap()))
+                    .or_default()
+                    .insert(t[1].as_str().unwrap().to_owned(), (t[2].as_i64().unwrap(), k as u64));
+            }
+            let mut v: Vec<(TestPriority, u64)> = suites
+                .values()
+                .flat_map(|s| s.values())
+                .map(|(p, k)| (TestPriority::new(*p as i8).expect("priority in range"), *k))
+                .collect();
+            v.sort_by_key(|x| x.0);
+            json!(v.iter().map(|x| x.1).collect::<Vec<_>>())
+        }
+        "runner" => fq_runner::run_runner(case),
+        other => json!({ "error": format!("unknown op {other}") }),
+    }
 }
